@@ -14,6 +14,7 @@ while returning (besides the recovered state) the query remainder that needs to 
 """
 from os import makedirs
 import os.path
+import uuid
 import hashlib
 import json
 from liquer.state_types import state_types_registry
@@ -595,25 +596,31 @@ class FileCache(CacheMixin):
             return None
         state.metadata["status"] = "ready"
 
-        if not self.store_metadata(state.metadata):
-            return False
-
         t = state_types_registry().get(state.type_identifier)
         path = self.to_path(
             state.query, prefix="data_", extension=t.default_extension()
         )
-        with open(path, "wb") as f:
-            try:
-                b, mime = t.as_bytes(state.data)
-                f.write(self.encode(b))
-            except NotImplementedError:
-                return False
-        return True
+        try:
+            b, mime = t.as_bytes(state.data)
+        except NotImplementedError:
+            return False
+        self.remove(state.query)  # unpublish; the metadata is written last, after the data is complete
+        self._write_file(path, self.encode(b))
+        return self.store_metadata(state.metadata)
+
+    def _write_file(self, path, b):
+        "Write into a temporary file in the cache directory, then move it into place atomically"
+        tmp = os.path.join(self.path, "tmp_" + uuid.uuid4().hex)
+        with open(tmp, "wb") as f:
+            f.write(b)
+        os.replace(tmp, path)
 
     def store_metadata(self, metadata):
         try:
-            with open(self.to_path(metadata["query"]), "wb") as f:
-                f.write(self.encode_metadata(json.dumps(metadata)))
+            self._write_file(
+                self.to_path(metadata["query"]),
+                self.encode_metadata(json.dumps(metadata)),
+            )
         except:
             logging.exception(f"Cache writing error: {metadata['query']}")
             return False
